@@ -20,6 +20,7 @@ RULE = ('random core files (all numeric dtypes + char, scalar variables, '
         'pncgen} x reopen {format=netcdf, auto-detected}. in-domain = '
         'representable in the flavour (see assumptions); non-trivial = '
         'in-domain file with >= 1 variable; distinct = digest of the spec.')
+RULE += (" Variables are also created with sized type strings ('f8', 'i2', ...) and through values= with a missing_value attribute; a second save generation in another flavour; files with a second unlimited dimension (NETCDF4).")
 ASSUMPTIONS = [
     'classic-model flavours cannot hold int64/unsigned: such files are '
     'outside the domain there (must raise or round-trip)',
